@@ -179,23 +179,18 @@ def r2(ctx, F, rule, sfx):
 def r3(ctx, F, rule, sfx):
     # call sites of the exact predicate
     eb = F.body_by_suffix('geometry::in_sphere_test_exact')
-    sites = []
-    for b in F.bodies:
-        if 'convex_cell_alternative' in b['path'] or '::tests::' in b['path']:
-            continue
-        for bl, t in calls(b):
-            if callee_name(t) == eb['path']:
-                sites.append((b, t))
     sc = scen.build_scenario(F)
     cb = F.body(sc.clip_path)
-    ctx.check(rule, 'single-call-site' + sfx, len(sites) == 1 and sites[0][0] is cb, [strip_generics(b['path']) for b, t in sites], 'only the clip routine calls the exact predicate', where(eb), key_extra='sites')
+    outside, nsites = call_sites_outside(F, eb['path'], cb)
+    ctx.check(rule, 'single-call-site' + sfx, nsites == 1 and not outside, '%d call site(s); outside the clip routine: %s' % (nsites, [strip_generics(b['path']) for b, t in outside]),
+              'only the clip routine (or a private helper of it) calls the exact predicate, once', where(eb), key_extra='sites')
     ip, selfref = c01.clip_scenario(F, cb)
-    ex = [e for e in ip.events if e.callee == eb['path'] and e.body is cb]
+    ex = [e for e in ip.events if e.callee == eb['path']]
     if len(ex) != 1:
         raise AnalysisIncomplete('exact predicate evaluated %d times in the clip routine' % len(ex))
     il = 'call:voronoi::boundary::SimulationBoundary::iloc('
     ok = all(repr(a).startswith(il) for a in ex[0].fargs)
-    ctx.check(rule, 'all-arguments-are-grid-points' + sfx, ok, [repr(a)[:50] for a in ex[0].fargs], 'five iloc(..) results', where(cb, ex[0].line), key_extra='args')
+    ctx.check(rule, 'all-arguments-are-grid-points' + sfx, ok, [repr(a)[:50] for a in ex[0].fargs], 'five iloc(..) results', where(ex[0].body, ex[0].line), key_extra='args')
     ib, comps = c05.iloc_form(ctx, F)
     masks = [m for u, m in comps]
     hi = max(masks)
@@ -232,7 +227,9 @@ def r6(ctx, F, rule, sfx):
     sc = scen.build_scenario(F)
     cb = F.body(sc.clip_path)
     ipc, selfref = c01.clip_scenario(F, cb)
-    ex = [e for e in ipc.events if e.callee and e.callee.endswith('geometry::in_sphere_test_exact') and e.body is cb]
+    ex = [e for e in ipc.events if e.callee and e.callee.endswith('geometry::in_sphere_test_exact')]
+    if len(ex) != 1:
+        raise AnalysisIncomplete('exact predicate evaluated %d times in the clip routine' % len(ex))
     import re
     perm = []
     for x in ex[0].fargs[1:4]:
